@@ -1,6 +1,8 @@
 import sys, os
 sys.path.insert(0, os.path.join(os.path.dirname(os.path.abspath(__file__)), '..', 'engine'))
 from driver import *
+sys.path.insert(0, os.path.dirname(os.path.abspath(__file__)))
+import common_jobs
 
 
 def stub_render(ex):
@@ -14,6 +16,7 @@ def main(tier):
                  'L3 schedule': 'one machine cycle at any frame index renders exactly pixels 4(c-20)..+3 of line LY for 20<=c<60, lines 0-143 (objects/window off in this lemma)',
                  'outside': '8x16 objects, WX<7, LCDC.0=0, mid-frame register/VRAM/OAM changes, DMA during rendering, the debug frame, more candidate objects on a line than the window size'}
     ck.assumptions = ['lcdInv (C13)', 'scene constant during the frame', 'LCDC: background on, 8x8 objects; WX in 7..166 when the window is on']
+    common_jobs.run_lcd_inv(ck)
     ck.run([('ppu', 'VerifSpriteScan', {}), ('ppu', 'VerifScanSchedule', {})], timeout_ms=600000, setup=stub_render)
     jobs = [('ppu', 'VerifRenderSchedule', {})]
     wins = [(0, 10), (15, 10), (30, 10)] if tier == 'quick' else [(0, 10), (10, 10), (20, 10), (30, 10), (5, 10), (15, 10), (25, 10), (0, 20), (20, 20)]
